@@ -209,8 +209,9 @@ func (e *Encoder) unmodelledCall(fr *frame, name string, args []*SVal, ci ssa.Ca
 		r := e.freshResult("metric", resT)
 		if r.K == KIface {
 			e.assumeFact(e.c.Not(e.c.Eq(r.Tag, e.c.Int(0))))
+			r.T = e.newAlloc() // every metric is an object of its own
 		} else if r.K == KPtr {
-			e.assumeFact(e.c.Not(e.c.Eq(r.T, e.c.NilRef())))
+			r.T = e.newAlloc()
 		}
 		return r
 	}
@@ -224,6 +225,15 @@ func (e *Encoder) unmodelledCall(fr *frame, name string, args []*SVal, ci ssa.Ca
 	pre := e.cur
 	e.havocAll()
 	e.restoreReceiver(fr, pre, args)
+	if !strings.Contains(name, "bmc.") && !strings.Contains(name, "dcmi.") && !strings.HasPrefix(name, "dynamic call") || e.privateCallback(ci) {
+		// code outside the packages that own the metrics and the transport cannot reach them
+		e.trusted["functions outside packages bmc and dcmi do not change the library's metrics or send datagrams"] = true
+		for _, cl := range []string{"ghost:metric", "ghost:metricvec", "ghost:sends"} {
+			if t, ok := pre.m[cl]; ok {
+				e.cur.m[cl] = t
+			}
+		}
+	}
 	if e.pure == 0 && e.contract != nil && len(e.contract.Assigns) > 0 && !e.contract.AssignsAny {
 		e.oblige("frame", "call:"+name, "call to an unmodelled function may modify anything", e.c.False(), ci.Pos())
 	}
@@ -377,7 +387,23 @@ func (e *Encoder) applyContract(fr *frame, ct *Contract, args []*SVal, ci ssa.Ca
 	env2.callSite = true
 	var posts []*Term
 	for _, cl := range ct.Ensures {
-		t := env2.trClause(cl)
+		t, ok := func() (t *Term, ok bool) {
+			defer func() {
+				if r := recover(); r != nil {
+					ce, isCE := r.(contractError)
+					if isCE && strings.Contains(ce.err.Error(), "cannot resolve variable") {
+						// a postcondition over the callee's local variables says nothing a caller can use
+						ok = false
+						return
+					}
+					panic(r)
+				}
+			}()
+			return env2.trClause(cl), true
+		}()
+		if !ok {
+			continue
+		}
 		e.assume(t)
 		posts = append(posts, t)
 	}
@@ -1202,8 +1228,56 @@ func init() {
 		},
 		"metric": func(env *Env, n *ast.CallExpr, args []*SVal) *SVal {
 			e := env.e
+			if t := args[0].T; t.Op == "app" && t.Name == "metricChild" {
+				// a child of a vector held in a package-level variable
+				g := e.get(env.state(), "ghost:metricvec", Arr(RefS, Arr(RefS, BV64)))
+				return &SVal{K: KScalar, Typ: types.Typ[types.Int], T: e.c.Select(e.c.Select(g, t.Args[0]), t.Args[1])}
+			}
 			g := e.get(env.state(), "ghost:metric", Arr(RefS, BV64))
 			return &SVal{K: KScalar, Typ: types.Typ[types.Int], T: e.c.Select(g, args[0].T)}
+		},
+		"hasKey": func(env *Env, n *ast.CallExpr, args []*SVal) *SVal {
+			// hasKey(m, k): the map has an entry for key k
+			e := env.e
+			c := e.c
+			m, k := args[0], args[1]
+			mt, ok := m.Typ.Underlying().(*types.Map)
+			if !ok {
+				panic(contractError{fmt.Errorf("hasKey: not a map")})
+			}
+			cls, ks, ok := e.mapClasses(mt)
+			if !ok {
+				panic(contractError{fmt.Errorf("hasKey: key type of %s is not modelled", mt)})
+			}
+			h := e.get(env.state(), cls+"#has", Arr(RefS, Arr(ks, BoolS)))
+			return env.mkBool(c.Select(c.Select(h, m.T), e.mapKeyTerm(e.coerce(k, mt.Key()), mt.Key())))
+		},
+		"metricvec": func(env *Env, n *ast.CallExpr, args []*SVal) *SVal {
+			// value of the child of a metric vector for a label (labels are identified by their string object)
+			e := env.e
+			g := e.get(env.state(), "ghost:metricvec", Arr(RefS, Arr(RefS, BV64)))
+			return &SVal{K: KScalar, Typ: types.Typ[types.Int], T: e.c.Select(e.c.Select(g, args[0].T), args[1].Base)}
+		},
+		"metricsOnly": func(env *Env, n *ast.CallExpr, args []*SVal) *SVal {
+			// every metric and every child of every metric vector other than the listed ones has its entry value
+			e := env.e
+			c := e.c
+			r := c.Bound("mr", RefS)
+			var not []*Term
+			for _, a := range args {
+				if a.T.Op == "app" && a.T.Name == "metricChild" {
+					not = append(not, c.Not(c.Eq(r, a.T.Args[0]))) // the child's vector
+					continue
+				}
+				not = append(not, c.Not(c.Eq(r, a.T)))
+			}
+			g1, o1 := e.get(env.st, "ghost:metric", Arr(RefS, BV64)), e.get(env.old, "ghost:metric", Arr(RefS, BV64))
+			g2, o2 := e.get(env.st, "ghost:metricvec", Arr(RefS, Arr(RefS, BV64))), e.get(env.old, "ghost:metricvec", Arr(RefS, Arr(RefS, BV64)))
+			body := c.Implies(c.And(not...), c.And(c.Eq(c.Select(g1, r), c.Select(o1, r)), c.Eq(c.Select(g2, r), c.Select(o2, r))))
+			if len(args) == 0 {
+				return env.mkBool(c.And(c.Eq(g1, o1), c.Eq(g2, o2)))
+			}
+			return env.mkBool(c.Forall([]*Term{r}, body))
 		},
 		"bufRoom": func(env *Env, n *ast.CallExpr, args []*SVal) *SVal {
 			// bufRoom(b, front, back): no reallocation is needed to prepend front / append back bytes
@@ -1908,6 +1982,12 @@ func (e *Encoder) hashObjOfDepth(h *SVal, st *State, depth int) (*Term, *Term) {
 				trunc = e.hashSizeObj(h.T)
 			}
 			trunc = c.Ite(is, length, trunc)
+			// (stated assumption above) the truncation length lies within the wrapped hash's size
+			bound := c.Implies(is, c.And(c.BVCmp("bvsle", c.BVLit(1, 64), length), c.BVCmp("bvsle", length, c.BVLit(64, 64))))
+			if !e.ufAxiomSeen[bound] {
+				e.ufAxiomSeen[bound] = true
+				e.assumeFact(bound)
+			}
 		}
 	}
 	return obj, trunc
@@ -2049,6 +2129,10 @@ func (e *Encoder) atCall(fr *frame, cm *ssa.CallCommon, ci ssa.CallInstruction, 
 	}
 	for _, cl := range e.contract.AtCalls {
 		if !strings.Contains(name, cl.Callee) {
+			continue
+		}
+		if cl.Slow && !thoroughTier {
+			skippedSlow++
 			continue
 		}
 		env := e.contractEnv(fr, e.contract, nil, e.cur, e.entry)
@@ -2390,4 +2474,47 @@ func (e *Encoder) deepEq(a, b *SVal) *Term {
 		eq(a.T, b.T)
 	}
 	return c.And(parts...)
+}
+
+// privateCallback: a dynamic call of a function value whose signature mentions an unexported
+// struct of the module can only reach functions written in the module; if none of the module's
+// functions of that signature contains a call, such a callback cannot change metrics or send.
+func (e *Encoder) privateCallback(ci ssa.CallInstruction) bool {
+	if ci == nil {
+		return false
+	}
+	cm := ci.Common()
+	if cm.IsInvoke() || cm.StaticCallee() != nil {
+		return false
+	}
+	sig := cm.Signature()
+	private := false
+	for i := 0; i < sig.Params().Len(); i++ {
+		t := sig.Params().At(i).Type()
+		if pt, ok := t.Underlying().(*types.Pointer); ok {
+			t = pt.Elem()
+		}
+		if nt, ok := t.(*types.Named); ok && nt.Obj().Pkg() != nil && strings.HasPrefix(nt.Obj().Pkg().Path(), modPath) && !nt.Obj().Exported() {
+			private = true
+		}
+	}
+	if !private {
+		return false
+	}
+	for f := range e.w.AllFuncs {
+		if f.Pkg == nil || !strings.HasPrefix(f.Pkg.Pkg.Path(), modPath) || !types.Identical(f.Signature, sig) {
+			continue
+		}
+		for _, b := range f.Blocks {
+			for _, in := range b.Instrs {
+				if c, ok := in.(ssa.CallInstruction); ok {
+					if _, isB := c.Common().Value.(*ssa.Builtin); !isB {
+						return false
+					}
+				}
+			}
+		}
+	}
+	e.trusted["a function value whose signature mentions an unexported type of the module is one of the module's own functions of that signature; none of them calls anything, so it changes no metric and sends nothing"] = true
+	return true
 }
